@@ -84,7 +84,7 @@ def long_cases(ctx, n):
         if ctx.rng.random() < 0.5:
             a, b = b, a
         cost = [1, 1, 1] if ctx.rng.random() < 0.6 else [ctx.rng.randint(1, 4) for _ in range(3)]
-        variant = ctx.rng.choice(["str", "int", "bigstr", "bigint"])
+        variant = ctx.rng.choice(["str", "int", "bigstr", "bigint", "astral"])
         syms = E.big_syms(ctx.rng, variant) if variant.startswith("big") else E.VARIANTS[variant]
         out.append({"src": a, "tgt": b, "cost": cost, "variant": variant, "syms": syms})
     return out
@@ -171,7 +171,7 @@ def run(ctx):
     design(ctx, 3, 2, [UNIT, (2, 1, 3)], label="alphabet=3 len<=2")
     design(ctx, 2, 2, [UNIT], legacy=True, expect_violation="SubstringExact", label="Legacy=TRUE (self-test)")
     groups = [("str", a, n, costs, 1.0), ("int", a, n, [UNIT, (1, 2, 3)], 1.0), ("mixed", a, n, [UNIT, (2, 1, 3)], 1.0),
-              ("mixedstr", a, n, [UNIT], 1.0), ("bigstr", a, n, [UNIT, (3, 2, 1)], 0.5), ("bigint", a, n, [UNIT, (1, 3, 2)], 0.5), ("str", 3, 2, [UNIT, (2, 1, 3)], 1.0)]
+              ("mixedstr", a, n, [UNIT], 1.0), ("astral", a, n, [UNIT, (2, 1, 3)], 1.0), ("bigstr", a, n, [UNIT, (3, 2, 1)], 0.5), ("bigint", a, n, [UNIT, (1, 3, 2)], 0.5), ("str", 3, 2, [UNIT, (2, 1, 3)], 1.0)]
     if not quick:
         more = [UNIT, (2, 1, 3), (1, 3, 2), (3, 2, 1)]
         design(ctx, 3, 4, [UNIT], label="alphabet=3 len<=4 unit costs")
